@@ -112,6 +112,22 @@ var c09FmtHuge = []string{"~99999999999%", "~99999999999&", "~99999999999|", "~9
 	"~99999999999,1T", "~0,99999999999T", "~99999999999<~a~>", "~99999999999$", "~1,99999999999$", "~1,1,99999999999$", "~99999999999F", "~1,99999999999F",
 	"~99999999999E", "~1,99999999999E", "~99999999999*", "~99999999999{~a~}", "~99999999999R", "~99999999999,1,1,1R", "~99999999999C", "~99999999999S", "~99999999999B", "~99999999999O", "~99999999999X", "~99999999999G", "~99999999999W", "~99999999999P", "~99999999999[a~]"}
 
+// c09DigitRun: the length of the longest run of decimal digits.
+func c09DigitRun(s string) int {
+	run, max := 0, 0
+	for i := 0; i < len(s); i++ {
+		if '0' <= s[i] && s[i] <= '9' {
+			run++
+			if run > max {
+				max = run
+			}
+		} else {
+			run = 0
+		}
+	}
+	return max
+}
+
 func c09LispString(s string) string {
 	s = strings.ReplaceAll(s, `\`, `\\`)
 	s = strings.ReplaceAll(s, `"`, `\"`)
@@ -218,6 +234,9 @@ func c09FmtSeeded(rng *lib.Rng, n int, skip func(label string) bool) []c09FmtCas
 			b.WriteString(in.text)
 		}
 		fc.ctl = b.String()
+		if len(fc.segs) == 0 {
+			fc.segs = []string{"literal"}
+		}
 		if rng.Chance(20) {
 			// byte-level mutation: the segments no longer describe the control string
 			bs := []byte(fc.ctl)
@@ -234,9 +253,18 @@ func c09FmtSeeded(rng *lib.Rng, n int, skip func(label string) bool) []c09FmtCas
 			}
 			fc.ctl = string(bs)
 			fc.segs = []string{"mutated"}
+			if c09DigitRun(fc.ctl) > 6 {
+				continue // a count beyond 10^6 belongs to the huge-count probes of the table
+			}
 		}
+		// a huge integer consumed by a v parameter is a repeat / padding count (see c09FmtHuge)
+		vparam := strings.ContainsAny(fc.ctl, "vV")
 		for a := rng.Intn(5); a > 0; a-- {
-			fc.args = append(fc.args, rng.Intn(len(c09FmtArgs)))
+			x := rng.Intn(len(c09FmtArgs))
+			if vparam && (c09FmtArgs[x].Name == "1e15" || c09FmtArgs[x].Name == "1e21") {
+				x = 3
+			}
+			fc.args = append(fc.args, x)
 		}
 		out = append(out, fc)
 	}
